@@ -5,7 +5,7 @@ Statements are about the executable model of `_Connector` in `Model.lean` (tied 
 the correspondence check) and quantify over every address list, every synchronous-failure pattern and every
 sequence of events (batches of connect completions, timer firings).
 -/
-import TornadoModel.C10.Goals
+import TornadoModel.C10.Live
 namespace TornadoModel.C10
 
 /-- once the connector's future has been completed no event changes it any more -/
@@ -350,6 +350,24 @@ theorem error_iff_all_failed : ∀ (l : List (Nat × Nat × Bool)) (ct : Bool) (
 example :
     (run (start (mkNamed [(0, 7, false), (0, 7, false)]) false) [.batch [.fail 0], .batch [.fail 1]]).settles
       = [.lastError 1] ∧ kindOf (.lastError 1) = .fail := by decide
+
+/-- **quiescent_inflight** — after `start()` and after every event, a stream whose `on_connect_done` has not run is
+still in flight (every completion of a batch is delivered within the batch) -/
+theorem quiescent_inflight (addrs : List Addr) (ct : Bool) (evs : List Event) :
+    ∀ x ∈ (run (start addrs ct) evs).streams, x.delivered = false → x.fut = .pending :=
+  q1_run addrs ct evs
+
+/-- **completes_when_idle** (clause 6, liveness) — at quiescence, when no attempt is in flight and neither timer
+is live, the future has completed: the connect never hangs -/
+theorem completes_when_idle (l : List (Nat × Nat × Bool)) (ct : Bool) (evs : List Event) :
+    Spec.clause6 (Spec.snapOf (run (start (mkNamed l) ct) evs)) = true :=
+  clause6_of (inv_run (mkNamed l) ct evs) (q1_run _ ct evs) (post_run _ ct evs)
+
+/-- **all_failed_completes** (clause 8) — when every address of the list (repeated addresses included) has a failed
+attempt and nothing is in flight, the future has completed — also while the connect timer is still pending -/
+theorem all_failed_completes (l : List (Nat × Nat × Bool)) (ct : Bool) (evs : List Event) :
+    Spec.clause8 (mkNamed l) (Spec.snapOf (run (start (mkNamed l) ct) evs)) = true :=
+  clause8_of (inv_run (mkNamed l) ct evs) (mkNamed_nodup l) (q1_run _ ct evs) (post_run _ ct evs)
 
 /-! ## the whole checker on the model's own runs -/
 
